@@ -60,6 +60,8 @@ def build(rng, sid):
                     v &= 0x1ff
                 vals[f] = v
                 lines.append('set %d %s %d' % (idx, f, v))
+        if cls == 'Dot1Q' and rng.random() < 0.5:
+            lines.append('set %d append_padding 0' % idx)            # as for every tag that was parsed: the Ethernet layer alone must pad the frame
         if cls == 'IPv6' and idx == len(stack) - 1:
             lines.append('set %d next_header 253' % idx)          # raw payload: 0 would announce a hop-by-hop header
         if cls == 'IP' and 'src_addr' not in vals:
@@ -80,6 +82,40 @@ def build(rng, sid):
     lines.append('ser')
     entry = {'EthernetII': 'eth', 'SLL': 'sll', 'Loopback': 'loopback', 'IP': 'ip', 'IPv6': 'ipv6'}[stack[0]]
     return lines, {'stack': stack, 'fields': info, 'payload': payload, 'entry': entry, 'entry_class': stack[0]}
+
+
+def ip6_from64(v):
+    """the IPv6Address the generated accessor table builds from a 64-bit script value"""
+    return bytes(((v >> (8 * (i % 8))) + i) & 255 for i in range(16))
+
+
+def build_udp_zero6(rng, sid):
+    """the same over IPv6 (where a zero checksum is not even allowed on the wire)"""
+    s6, d6 = rng.randrange(1 << 64), rng.randrange(1 << 64)
+    src, dst = ip6_from64(s6), ip6_from64(d6)
+    sport, dport = rng.randrange(65536), rng.randrange(65536)
+    n = rng.choice([2, 4, 6, 18, 100]) + rng.choice([0, 0, 1])
+    body = bytearray(rng.randrange(256) for _ in range(n))
+    even = n - (n % 2)
+    ln = 8 + n
+
+    def total(b):
+        data = src + dst + struct.pack('>IHBB', ln, 0, 0, 17) + struct.pack('>HHHH', sport, dport, ln, 0) + bytes(b)
+        if len(data) % 2:
+            data += b'\0'
+        t = sum(struct.unpack('>%dH' % (len(data) // 2), data))
+        while t >> 16:
+            t = (t & 0xffff) + (t >> 16)
+        return t
+    body[even - 2:even] = b'\0\0'
+    rest = total(body)
+    w = 0xffff - rest if rest != 0xffff else 0xffff
+    body[even - 2:even] = struct.pack('>H', w)
+    assert total(body) == 0xffff
+    lines = ['new EthernetII', 'push IPv6', 'push UDP', 'set 1 src_addr %d' % s6, 'set 1 dst_addr %d' % d6,
+             'set 2 sport %d' % sport, 'set 2 dport %d' % dport, 'raw x' + bytes(body).hex(), 'ser']
+    info = [('EthernetII', {}), ('IPv6', {}), ('UDP', {'sport': sport, 'dport': dport})]
+    return lines, {'stack': ['EthernetII', 'IPv6', 'UDP'], 'fields': info, 'payload': bytes(body), 'entry': 'eth', 'entry_class': 'EthernetII'}
 
 
 def build_udp_zero(rng, sid):
